@@ -23,11 +23,15 @@ func (*mirrorHandler) Info() (*agent.InfoResponse, error) {
 func (*mirrorHandler) Init(*agent.InitRequest) (*agent.InitResponse, error) {
 	return &agent.InitResponse{Success: true}, nil
 }
-func (*mirrorHandler) Snapshot() (*agent.SnapshotResponse, error) { return &agent.SnapshotResponse{}, nil }
+func (*mirrorHandler) Snapshot() (*agent.SnapshotResponse, error) {
+	return &agent.SnapshotResponse{}, nil
+}
 func (*mirrorHandler) Restore(*agent.RestoreRequest) (*agent.RestoreResponse, error) {
 	return &agent.RestoreResponse{Success: true}, nil
 }
-func (*mirrorHandler) BeginBatch(*agent.BeginBatch) error { return errors.New("batching not supported") }
+func (*mirrorHandler) BeginBatch(*agent.BeginBatch) error {
+	return errors.New("batching not supported")
+}
 func (h *mirrorHandler) Point(p *agent.Point) error {
 	h.a.Responses <- &agent.Response{Message: &agent.Response_Point{Point: p}}
 	return nil
